@@ -179,7 +179,7 @@ def modes(ctx, case):
     from core import wl, matcher, util
     from frontends.tui.arguments import Arguments, Mode
     from core.output import Output
-    n, first, part = case       # part: 'stream' (stream x chunking x schedule) | 'child' (environment, argument words, exit status)
+    n, first, part = case[:3]       # part: 'stream' (stream x chunking x schedule) | 'child' (environment, argument words, exit status)
     util.color_output = False
     main = importlib.import_module('main')
     runner = importlib.import_module('backends.libwayland_debug_output.runner')
@@ -219,6 +219,9 @@ def modes(ctx, case):
     stop_text = ctx.choose([None, '.get_registry', '*'], 'breakpoint') if part == 'child' else [None, None, '.sync', '*'][(n + first) % 4]
     stop_matcher = matcher.never if stop_text is None else matcher.parse(stop_text).simplify()
     via_cli = ctx.choose([False, True], 'via_command_line') if part == 'child' else False
+    # what the user types at the prompt that follows the end of the program (run mode): slips included - a mistyped command, just Enter, a matcher
+    # that does not parse, a connection that does not exist. wayland-debug reports them; they are not the program's business
+    session = [['quit'], ['lst', 'quit'], ['', 'q'], ['list [', 'connection Z', 'quit']][case[3]] if part == 'child' and len(case) > 3 else ['quit']
     if via_cli:
         libdir = None       # the default library directory does not exist in the sandbox
 
@@ -250,9 +253,13 @@ def modes(ctx, case):
         output = Output(False, not supress, out, err)
         prompts = []
 
+        todo = list(session) if mode == 'run' else ['quit']
+
         def input_func(p):
             prompts.append(len(out.items))
-            return 'quit'
+            if len(prompts) == 1:
+                info['err_at_first_prompt'] = len(err.items)
+            return todo.pop(0) if todo else 'quit'
         info = {'prompts': prompts}
         code = None
         try:
@@ -424,6 +431,9 @@ def modes(ctx, case):
     if p_out != f_out or p_err != f_err:
         ctx.note('file', (f_out, f_err)); ctx.note('pipe', (p_out, p_err))
     ctx.check('pipe mode shows exactly what file mode shows', p_out == f_out and [e for e in p_err] == [e for e in f_err])
+    if len(session) > 1 and r_info['prompts']:
+        # what was typed at the prompt afterwards (and the diagnostics it earned) is no part of the comparison
+        r_out, r_err = r_out[:r_info['prompts'][0]], r_err[:r_info.get('err_at_first_prompt', len(r_err))]
     ctx.check('run mode shows exactly what file mode shows (every chunking, every schedule)', r_out == f_out and r_err == f_err)
     calls, st = r_info['calls'], r_info['st']
     ctx.check('the helper thread is joined, not abandoned', r_info['worker'].finished)
@@ -457,10 +467,10 @@ def twin(ctx, case):
 def obligations(tier):
     nmax = 3 if tier == 'quick' else 4
     cases = [(0, 0, 'stream')] + [(n, f, 'stream') for n in range(1, nmax + 1) for f in range(len(POOL))]
-    cases += [(1, 0, 'child'), (2, 4, 'child'), (0, 0, 'child')]
+    cases += [(n, f, 'child', k) for (n, f) in ((1, 0), (2, 4), (0, 0)) for k in range(4)]
     cases.sort(key=lambda c: -c[0])
     bounds = ('stream part: streams of <= %d lines from a pool of %d, last line with/without newline, each line whole or split mid-line, 3 schedules, child closing its stderr at exit or long before exiting, --supress on/off; '
-              'child part: 2 environments x library directory set or not x 2 extra argument words from {opaque, -r, -g, --supress, -l, --, the empty word}; exit status symbolic in [0,256) throughout' % (nmax, len(POOL)))
+              'child part: 2 environments x library directory set or not x 2 extra argument words from {opaque, -r, -g, --supress, -l, --, the empty word}; exit status symbolic in [0,256) throughout; 4 prompt sessions (slips included) after the program ended' % (nmax, len(POOL)))
     return [Ob('three-modes', 'symx', 'file = pipe = run; child started verbatim with the right environment and stdio; output before prompt; exit status', FUNCS, bounds, modes, cases=cases,
                stubs=['subprocess / threading / os.pipe / os.fdopen / os.close / os.environ replaced in runner.py', 'open() and sys.stdin replaced in main.py', 'protocol.load_all stubbed'],
                outside='real kernel/C-library behaviour (byte chunking, TextIOWrapper, thread scheduling, join timeout, real exit statuses)', budget_s=1200),
